@@ -13,7 +13,7 @@ applies the remaining commands ends in the same catalogue as a node that applied
 -/
 import OG.C15.TableProps
 import OG.C15.ModelLemmas
-import OG.C15.InvariantCmds
+import OG.Meta.KeysInvCmds
 
 namespace OG.C15
 open OG.Meta
